@@ -10,7 +10,11 @@
    Known finding F10 (class F10_lax_ignores_ether_type_version): the lax whole-packet cursor
    dispatches on the IP version nibble and ignores whether the ether type said IPv4 or IPv6.
    (a), (c), (d) hold without exclusion (a strictly accepted packet has the matching nibble);
-   the whole-packet form of (b) is refuted inside the class, see C05_F10_refuted. *)
+   the whole-packet form of (b) is refuted inside the class, see C05_F10_refuted.
+
+   Second half of the file: the lax model refines a lax reference decoder over absolute
+   positions (Parse/LaxWire.v); corollaries: the lax model never returns Bug, whole-packet
+   (d) (C05_incomplete_iff_packet) and whole-packet (b) (C05_lax_prefix). *)
 From EP Require Import Base.Bytes Parse.Types Parse.Slices Parse.Cursor Parse.View Parse.WireSpec
   Parse.LaxSlices Parse.LaxCursor Parse.LaxView Parse.LaxProofs Parse.LaxFacts.
 
@@ -99,8 +103,9 @@ Proof.
 Qed.
 Print Assumptions C05_incomplete_iff.
 
-(* ---- (b), proved part ------------------------------------------------------------------
-   Full statement (NOT proved for the whole-packet entry points):
+(* ---- (b), per layer (kept; the whole-packet statement is C05_lax_prefix at the end of
+   this file, lax-never-Bug is C05_lax_never_bug / C05_lax_never_bug_single) ---------------
+   Full statement (proved per layer here, for the whole-packet cursor below):
      forall bs, ~ KnownClass_F10 bs ->
        SlicedPacket.from_X bs = Err e at a layer behind the first header ->
        exists r', LaxSlicedPacket.from_X bs = Ok r' /\
@@ -214,3 +219,198 @@ Example C05_ex_ext_fault :
   exists e, Ipv6ExtensionsSlice.from_slice 60 (mk_slice [17;1;0;0]) = Err e /\
     exists w, LaxIpv6Exts.from_slice_lax 60 (mk_slice [17;1;0;0]) = Ok (w, Some (e, LyIpv6DestOptionsHeader)).
 Proof. eexists. split; [vm_compute; reflexivity|]. eexists. vm_compute. reflexivity. Qed.
+
+(* ========================================================================================
+   Whole-packet theorems through the lax REFERENCE decoder (Parse/LaxWire.v).
+
+   `lwire_*` decodes a packet laxly over absolute positions of the buffer (bytes `B bs i`,
+   16 bit words `W bs i` of WireSpec.v; no slices, no pointers, no unchecked reads).  The lax
+   MODEL is proved to compute exactly that decoding (C05_lax_refines_reference) by threading the
+   representation invariant `repr` (every slice handed down is a window of the buffer) through
+   LaxIpSlice / the extension walk / the link-extension loop, like StrictProofs.v does for the
+   strict stack.  Everything below is a corollary of that refinement plus facts about the
+   reference functions. *)
+From EP Require Import Parse.Repr Parse.StrictProofs Parse.LaxWire Parse.LaxWireProofs
+  Parse.LaxWireFacts Parse.LaxPrefix.
+
+Theorem C05_lax_refines_reference : forall bs et, bytes_ok bs ->
+  lvres_of (LaxSlicedPacket.from_ethernet bs) = lwire_ethernet bs /\
+  lvres_of (LaxSlicedPacket.from_ether_type et bs) = lwire_ether_type bs et /\
+  lvres_of (LaxSlicedPacket.from_ip bs) = lwire_from_ip bs.
+Proof.
+  exact (fun bs et H => conj (lax_from_ethernet_eq bs H)
+           (conj (lax_from_ether_type_eq bs et H) (lax_from_ip_eq bs H))).
+Qed.
+Print Assumptions C05_lax_refines_reference.
+
+(* ---- the lax model never returns Bug: no failing unchecked read / from_raw_parts / usize
+   subtraction / unwrap / push_unchecked / loop bound, for every byte string ---------------- *)
+Theorem C05_lax_never_bug : forall bs et b, bytes_ok bs ->
+  LaxSlicedPacket.from_ethernet bs <> Bug b /\
+  LaxSlicedPacket.from_ether_type et bs <> Bug b /\
+  LaxSlicedPacket.from_ip bs <> Bug b.
+Proof. exact lax_never_bug. Qed.
+Print Assumptions C05_lax_never_bug.
+
+(* the single-layer lax decoders, on every window [pos, lim) of every buffer (`repr bs s pos lim`;
+   the whole buffer is `repr_whole : repr bs (mk_slice bs) 0 (len bs)`), for every start number nh *)
+Theorem C05_lax_never_bug_single : forall bs s pos lim nh, bytes_ok bs -> repr bs s pos lim ->
+  no_bug (LaxIpSlice.from_slice s) /\ no_bug (LaxIpv4Slice.from_slice s) /\
+  no_bug (LaxIpv6Slice.from_slice s) /\ no_bug (LaxMacsecSlice.from_slice s) /\
+  no_bug (UdpSlice.from_slice_lax s) /\ no_bug (LaxIpv6Exts.from_slice_lax nh s) /\
+  no_bug (LaxIpv4Exts.from_slice_lax nh s).
+Proof. exact lax_single_never_bug. Qed.
+Print Assumptions C05_lax_never_bug_single.
+Check (eq_refl : @no_bug = fun A (r : res A) => forall b, r <> Bug b).
+
+(* ---- (d) whole packet: a link / network payload is marked incomplete exactly when its length
+   field (MACsec short length, IPv4 total length, IPv6 payload length, read from the buffer at
+   the absolute position of the layer) promises more bytes than the slice the layer was decoded
+   from holds; then the payload window ends at that slice's end and len_source = Slice.
+   `packet_flags_ok bs enc0 v` walks the link extensions of the view v from the slice enc0 behind
+   the link header (each extension's payload window is the next layer's slice) and states that
+   for every MACsec extension and for the IPv4 / IPv6 layer (definitions in Parse/LaxWire.v) *)
+Theorem C05_incomplete_iff_packet : forall bs et r', bytes_ok bs ->
+  (LaxSlicedPacket.from_ethernet bs = Ok r' -> packet_flags_ok bs (14, len bs - 14) (lview r')) /\
+  (LaxSlicedPacket.from_ether_type et bs = Ok r' -> packet_flags_ok bs (0, len bs) (lview r')) /\
+  (LaxSlicedPacket.from_ip bs = Ok r' -> packet_flags_ok bs (0, len bs) (lview r')).
+Proof. exact lax_incomplete_iff_packet. Qed.
+Print Assumptions C05_incomplete_iff_packet.
+
+(* pin the meaning *)
+Check (eq_refl : ip_flag_ok =
+  fun (enc : window) (promised : N) (p : lvip_payload) =>
+    lvip_incomplete p = (snd enc <? promised) /\
+    (lvip_incomplete p = true -> lvip_src p = LsSlice /\ win_end (lvip_win p) = win_end enc)).
+Check (eq_refl : net_flag_ok =
+  fun bs (enc : window) (n : lvnet) =>
+    match n with
+    | LVIpv4 (hp, _) _ p => hp = fst enc /\ ip_flag_ok enc (W bs (fst enc + 2)) p
+    | LVIpv6 (hp, _) _ _ _ p => hp = fst enc /\ ip_flag_ok enc (40 + W bs (fst enc + 4)) p
+    | LVArp _ => True
+    end).
+
+(* ---- (b) whole packet ------------------------------------------------------------------------
+   `pwire_*` (Parse/LaxWire.v) is the strict reference decoder of WireSpec.v instrumented to
+   hand back the packet decoded so far when it rejects; forgetting that packet gives WireSpec
+   back: *)
+Theorem C05_partial_reference_sound : forall bs et,
+  forget (pwire_ethernet bs) = wire_ethernet bs /\
+  forget (pwire_ether_type bs et) = wire_ether_type bs et /\
+  forget (pwire_from_ip bs) = wire_from_ip bs.
+Proof. exact pwire_sound. Qed.
+Print Assumptions C05_partial_reference_sound.
+
+(* strict model = Err e behind the first header (Ethernet II header present / no link header /
+   IP header decodable)  ==>  the reference decoder rejects with (q, e_ref): q = every layer in
+   front of the fault, e_ref = the fault the strict model reports (C03/C07 relation res_rel);
+   the lax model returns Ok r' and, outside the known class F10,
+     - every layer of q is a layer of r', unchanged (vprefix on the observer views), and
+     - e_ref was a documented length fallback (IPv4 total length, IPv6 payload length, MACsec
+       short length, UDP length), or stop_err r' = (e', tag) with e' the same error record and a
+       fitting layer tag, or (F11) e_ref is a fault of the IP header itself and stop_err r' is an
+       IP-header fault with tag IpHeader at the same offset.
+   Covers the rejecting cases of the link-extension loop (VLAN, MACsec header, MACsec short
+   length), ARP, the IP dispatch, both IP families incl. authentication header and extension
+   chain, and the transport step. *)
+Theorem C05_lax_prefix : forall bs et, bytes_ok bs ->
+  (14 <= len bs ->
+   prefix_ok bs (SlicedPacket.from_ethernet bs) (pwire_ethernet bs) (LaxSlicedPacket.from_ethernet bs)) /\
+  prefix_ok bs (SlicedPacket.from_ether_type et bs) (pwire_ether_type bs et)
+    (LaxSlicedPacket.from_ether_type et bs) /\
+  (ip_header_fault bs = None ->
+   prefix_ok bs (SlicedPacket.from_ip bs) (pwire_from_ip bs) (LaxSlicedPacket.from_ip bs)).
+Proof. exact lax_prefix_packet. Qed.
+Print Assumptions C05_lax_prefix.
+
+(* pin the meaning *)
+Check (eq_refl : prefix_ok =
+  fun bs strict pw lax => forall e, strict = Err e ->
+    exists q e_ref r',
+      pw = PRej q e_ref /\ res_rel (VErr e) (VErr e_ref) /\ lax = Ok r' /\
+      (~ F10_class bs e_ref ->
+       vprefix q (strictify (lview r')) /\ lax_outcome e_ref (lview r'))).
+Check (eq_refl : lax_outcome =
+  fun e q =>
+    fallback e \/
+    (exists e' ly, lv_stop q = Some (e', ly) /\ lax_same e e' /\ tag_ok e' ly) \/
+    (ip_hdr_class e /\
+     exists e', lv_stop q = Some (e', LyIpHeader) /\ ip_hdr_class e' /\
+                (forall o o', err_off e = Some o -> err_off e' = Some o' -> o = o'))).
+Check (eq_refl : vprefix =
+  fun p q => v_link p = v_link q /\ (exists rest, v_exts q = v_exts p ++ rest) /\
+             (v_net p = None \/ v_net p = v_net q) /\
+             (v_transport p = None \/ v_transport p = v_transport q)).
+Check (eq_refl : F10_class =
+  fun bs e => e = EContent (CeIpv4Version 6) \/ e = EContent (CeIpv6Version 4) \/
+              (exists l, e = ELen l /\ le_layer l = LyIpv6Header /\ B bs (le_off l) / 16 = 4)).
+
+(* ---- non-vacuity of the whole-packet theorems ------------------------------------------------- *)
+Example C05_ex_bytes_ok : bytes_ok ex_pkt /\ repr ex_pkt (mk_slice ex_pkt) 0 (len ex_pkt).
+Proof. split; [apply bytes_okb_spec; vm_compute; reflexivity|apply repr_whole]. Qed.
+
+(* (d): the cut packet of C05_ex_cut: IPv4 at 18, total length W 20 = 32 > 23 bytes in the slice *)
+Example C05_ex_incomplete_packet :
+  exists r', LaxSlicedPacket.from_ethernet (firstn 41 ex_pkt) = Ok r' /\
+    enc_after (14, 27) (lv_exts (lview r')) = (18, 23) /\ W (firstn 41 ex_pkt) 20 = 32 /\
+    exists h a p, lv_net (lview r') = Some (LVIpv4 h a p) /\ lvip_incomplete p = true.
+Proof. eexists. split; [vm_compute; reflexivity|]. repeat split. eexists _, _, _. split; reflexivity. Qed.
+
+(* (b): the same packet: strict rejects at the IPv4 layer (total length fallback); the layers in
+   front of the fault are the Ethernet II header and the VLAN tag *)
+Example C05_ex_prefix_fallback :
+  14 <= len (firstn 41 ex_pkt) /\
+  pwire_ethernet (firstn 41 ex_pkt) =
+    PRej (mkVPacket (Some (VEthernet2 (0, 41))) [VVlan (14, 27)] None None)
+         (ELen (mkLenError 32 23 LsSlice LyIpv4Packet 18)) /\
+  fallback (ELen (mkLenError 32 23 LsSlice LyIpv4Packet 18)).
+Proof. split; [vm_compute; discriminate|]. split; [vm_compute; reflexivity|]. cbn. auto. Qed.
+
+(* (b): Ethernet / IPv4 / TCP with 4 of 20 TCP header bytes: strict rejects in the transport
+   layer, no fallback; lax records exactly that error on layer TcpHeader; the layers in front of
+   the fault include the IPv4 layer *)
+Definition ex_tcp_cut : bytes :=
+  [1;2;3;4;5;6; 7;8;9;10;11;12; 8;0;
+   69;0;0;24; 0;0;0;0; 64;6;0;0; 1;2;3;4; 5;6;7;8;
+   0;1;0;2].
+Example C05_ex_prefix_stop :
+  bytes_ok ex_tcp_cut /\ 14 <= len ex_tcp_cut /\
+  SlicedPacket.from_ethernet ex_tcp_cut = Err (ELen (mkLenError 20 4 LsIpv4HeaderTotalLen LyTcpHeader 34)) /\
+  ~ F10_class ex_tcp_cut (ELen (mkLenError 20 4 LsIpv4HeaderTotalLen LyTcpHeader 34)) /\
+  exists q r',
+    pwire_ethernet ex_tcp_cut = PRej q (ELen (mkLenError 20 4 LsIpv4HeaderTotalLen LyTcpHeader 34)) /\
+    v_net q = Some (VIpv4 (14, 20) None (mkVIp 6 false LsIpv4HeaderTotalLen (34, 4))) /\
+    LaxSlicedPacket.from_ethernet ex_tcp_cut = Ok r' /\
+    lsp_stop_err r' = Some (ELen (mkLenError 20 4 LsIpv4HeaderTotalLen LyTcpHeader 34), LyTcpHeader).
+Proof.
+  split; [apply bytes_okb_spec; vm_compute; reflexivity|].
+  split; [vm_compute; discriminate|]. split; [vm_compute; reflexivity|].
+  split.
+  { intros [H|[H|(l & H & Hl & _)]]; try discriminate. injection H as <-. discriminate. }
+  eexists _, _. split; [vm_compute; reflexivity|]. split; [reflexivity|].
+  split; [vm_compute; reflexivity|reflexivity].
+Qed.
+
+(* ---- (c) for the lax header-struct family (LaxPacketHeaders; model Parse/HdrLaxModel.v of the
+   C04 check): Err exactly when the very first header is undecodable.  `hdr_ip_header_fault` is the
+   condition over the bytes as IpHeaders::from_slice_lax reports it (finding F11: a cut-short IPv4
+   header is `required_len 20` here, `ihl*4` in LaxIpSlice / ip_header_fault) ------------------ *)
+From EP Require Import Parse.HdrModel Parse.HdrLaxModel Parse.LaxHdrFacts.
+
+Theorem C05_headers_err_only_first : forall bs et e,
+  (LaxPacketHeaders.from_ethernet bs = Err e <->
+     (len bs < 14 /\ e = ELen (mkLenError 14 (len bs) LsSlice LyEthernet2Header 0))) /\
+  LaxPacketHeaders.from_ether_type et bs <> Err e /\
+  (LaxPacketHeaders.from_ip bs = Err e <-> hdr_ip_header_fault bs = Some e).
+Proof. exact hdr_lax_err_only_first. Qed.
+Print Assumptions C05_headers_err_only_first.
+
+Example C05_ex_headers_err :
+  hdr_ip_header_fault [69; 0; 0] = Some (ELen (mkLenError 20 3 LsSlice LyIpv4Header 0)) /\
+  LaxPacketHeaders.from_ip [69; 0; 0] = Err (ELen (mkLenError 20 3 LsSlice LyIpv4Header 0)) /\
+  exists r, LaxPacketHeaders.from_ether_type 2048 [69; 0; 0] = Ok r /\
+            lh_stop r = Some (ELen (mkLenError 20 3 LsSlice LyIpv4Header 0), LyIpHeader).
+Proof.
+  split; [vm_compute; reflexivity|]. split; [vm_compute; reflexivity|].
+  eexists. split; vm_compute; reflexivity.
+Qed.
